@@ -22,7 +22,8 @@ RULE = ("Kernel level: Hypothesis draws NW in 1..200 (every N*W factorisation), 
         "that round's model, and all_log_likelihood / sum / mean / median / per-cluster mean+median equal those of the "
         "labelled windows' reference densities under the final model. Non-trivial (kernel) = |log det| > 745 (outside the "
         "exp range of a double) or NW >= 50; (e2e) = >= 2 populated clusters; distinct by SHA-1 of the case."
-        ' The kernel sub-check also runs with Numba not importable.')
+        ' The kernel sub-check also runs with Numba not importable.'
+        ' Points also Fortran-ordered / transposed / row-strided; 32769..66000 points for NW<=3.')
 ASSUMPTIONS = ["cluster means of the final model are read through the guarded run_end hook (not part of the public result)",
                "tolerance (1e-9 + 4 n^2 eps kappa)(1+|ref|): kappa term bounds legitimate cancellation in the quadratic form / LU determinant"]
 
@@ -34,13 +35,19 @@ def kernel_case(draw):
     W = draw(st.sampled_from(divisors))
     K = draw(st.integers(1, 4))
     T = draw(st.integers(1, 6))
+    many = None
+    if nw <= 3 and draw(st.integers(0, 24)) == 0:
+        # more points than any block size a chunked evaluation is likely to use, and not a multiple of one
+        many = draw(st.sampled_from([32769, 33000, 40000, 65537, 66000]))
     kappa_exp = draw(st.one_of(st.floats(0, 4), st.floats(0, 4), st.floats(0, 4), st.floats(0, 4), st.floats(4, 8)))
     targets = [draw(st.one_of(st.floats(-3000, 3000), st.sampled_from([-3000.0, 3000.0, -800.0, 800.0, 0.0]))) for _ in range(K)]
     return {"nw": nw, "W": W, "K": K, "T": T, "kappa_exp": kappa_exp, "logdet_targets": targets,
             "seed": draw(st.integers(0, 2 ** 32 - 1)), "spread": draw(st.sampled_from([0.1, 1.0, 10.0])),
             "offset_pow2": draw(st.sampled_from([None, None, None, 8, 16, 24, 32, 40])),
             "points_dtype": draw(st.sampled_from(["float64", "float64", "float64", "float32"])),
-            "rescore_after_update": draw(st.booleans()), "points_on_means": draw(st.sampled_from([False, False, True]))}
+            "rescore_after_update": draw(st.booleans()) and not many, "points_on_means": draw(st.sampled_from([False, False, True])),
+            "points_layout": draw(st.sampled_from(["C", "C", "F", "transposed_view", "row_strided"])),
+            "many_points": many}
 
 
 def build_kernel_inputs(case):
@@ -66,8 +73,20 @@ def build_kernel_inputs(case):
         # windows that coincide exactly with a cluster's mean window (idle stretches, one-member clusters): distance exactly 0
         for i in range(min(len(pts), K)):
             pts[i] = means[i % K]
+    if case.get("many_points"):
+        reps = int(case["many_points"])
+        pts = np.concatenate([pts, rng.normal(0, case["spread"], size=(reps - len(pts), nw)) + means[0] * rng.integers(0, 2, size=(reps - len(pts), 1))])
     if case.get("points_dtype") == "float32":
         pts = pts.astype(np.float32)              # the reference is computed from exactly these stored values
+    lay = case.get("points_layout", "C")
+    if lay == "F":
+        pts = np.asfortranarray(pts)
+    elif lay == "transposed_view":
+        pts = np.ascontiguousarray(pts.T).T       # X.T of a (features x time) array
+    elif lay == "row_strided":
+        big = np.zeros((2 * len(pts), pts.shape[1]), dtype=pts.dtype)
+        big[::2] = pts
+        pts = big[::2]
     return thetas, means, pts
 
 
@@ -120,13 +139,17 @@ def execute_kernel(case, t):
                             f"(|diff| {err[i]:.3g} > tol {tol[i]:.3g}; NW={nw}, kappa={kappas[k]:.3g}, log det={logdets[k]:.1f})")
         # the per-point entry (used for the result's per-point values) must agree as well
         c = ms.clusters[k]
-        for i in range(pts.shape[0]):
+        for i in (range(pts.shape[0]) if pts.shape[0] <= 64 else list(range(8)) + list(range(pts.shape[0] - 8, pts.shape[0]))):
             v = float(likelihood.point_log_likelihood(pts[i], c, W, nw // W))
             
             if not math.isfinite(v) or abs(v - ref[i, k]) > tol[i]:
                 raise Violation(f"point_log_likelihood(point {i}, cluster {k}) = {v!r}, reference {ref[i, k]!r} (NW={nw})")
         t.max("max_rel_error", float(np.max(err / (1 + np.abs(ref[:, k])))))
     t.cls("NW>=50" if nw >= 50 else "NW<50")
+    if case.get("points_layout", "C") != "C":
+        t.cls(f"points_layout_{case['points_layout']}")
+    if case.get("many_points"):
+        t.cls("more_than_32768_points")
     big = any(abs(ld) > 745 for ld in logdets)
     if big:
         t.cls("logdet_outside_exp_range")
